@@ -249,6 +249,75 @@ func TestConcurrent(t *testing.T) {
 		}()
 		out.Add("conc-one-object", rec.Ev{"pat": "pair", "tran": "tcp"}, "same call on one endpoint", sim.Result{Lines: r.Lines(), Status: status, Detail: detail})
 	}
+	// contexts closed from several goroutines at the same moment as their socket (the ordinary shutdown of a server with
+	// one worker per context): every Close returns nil or ErrClosed, nothing crashes, nothing races
+	{
+		r := rec.New()
+		status, detail := "ok", ""
+		func() {
+			defer func() {
+				if x := recover(); x != nil {
+					status, detail = "panic", fmt.Sprint(x)
+				}
+			}()
+			rounds, nctx := 12, 200
+			if thorough() {
+				rounds = 100
+			}
+			for _, mk := range []struct {
+				name string
+				f    func() (mangos.Socket, error)
+			}{{"req", req.NewSocket}, {"rep", rep.NewSocket}, {"surveyor", surveyor.NewSocket}, {"respondent", respondent.NewSocket}, {"sub", sub.NewSocket}} {
+				bad := map[string]int{}
+				calls := 0
+				for i := 0; i < rounds; i++ {
+					s, err := mk.f()
+					if err != nil {
+						panic(err)
+					}
+					var ctxs []mangos.Context
+					for k := 0; k < nctx; k++ {
+						c, err := s.OpenContext()
+						if err != nil {
+							panic(err)
+						}
+						ctxs = append(ctxs, c)
+					}
+					const K = 4
+					var wg sync.WaitGroup
+					var ready atomic.Int32
+					var mu sync.Mutex
+					note := func(e error) {
+						mu.Lock()
+						calls++
+						if e != nil && e != mangos.ErrClosed {
+							bad[fmt.Sprint(e)]++
+						}
+						mu.Unlock()
+					}
+					for g := 0; g < K; g++ {
+						wg.Add(1)
+						go func() {
+							defer wg.Done()
+							ready.Add(1)
+							for ready.Load() < K {
+							}
+							if g == 0 {
+								note(s.Close())
+								return
+							}
+							for k := g - 1; k < nctx; k += K - 1 {
+								note(ctxs[k].Close())
+							}
+						}()
+					}
+					wg.Wait()
+				}
+				r.Emit("cctx", "pat", mk.name, "rounds", rounds, "calls", calls, "other", len(bad), "others", fmt.Sprint(bad))
+			}
+		}()
+		out.Add("conc-close-contexts", rec.Ev{"pat": "contexts", "tran": "none"}, "contexts and their socket closed at once", sim.Result{Lines: r.Lines(), Status: status, Detail: detail})
+	}
 	for pi, cp := range concPats {
 		for ti, tran := range []string{"inproc", "tcp", "tls+tcp", "ipc", "ws"} {
 			if ti >= 1 && (pi+ti)%3 != 0 && !(thorough() && ti == 1) {
